@@ -76,7 +76,11 @@ fn gen_one(rng: &mut Rng, ws: bool) -> Program {
             6 => Cmd::UseDbUser,
             7 | 8 => Cmd::Get { key },
             9 => Cmd::GetSafe { key },
-            10 | 11 => Cmd::Set { key, val: format!("v{}", uniq) },
+            10 | 11 => {
+                // one value in eight makes the body longer than the 1 KiB the HTTP layer pre-loads
+                let val = if rng.chance(1, 8) { format!("v{}{}", uniq, "x".repeat(rng.range(1_100, 3_000) as usize)) } else { format!("v{}", uniq) };
+                Cmd::Set { key, val }
+            }
             12 => Cmd::SetSafeOk { key, val: format!("s{}", uniq) },
             13 => Cmd::SetSafeStale { key, val: format!("t{}", uniq) },
             14 => Cmd::Remove { key },
